@@ -271,6 +271,23 @@ func init() {
 		}
 		return r, true
 	})
+	vf("vfClockNow", func(in *Interp, th *Thread, fn *ssa.Function, a []Value) (Value, bool) {
+		// freezes the clock at a fresh symbolic second and returns it (natively: the real clock)
+		t := in.fresh("now", "clock", BV(64))
+		in.assume(in.ts.And(in.ts.Cmp(OSLe, in.i64(1000000000), t), in.ts.Cmp(OSLe, t, in.i64(3000000000))))
+		in.clockFrozen = t
+		return t, true
+	})
+	vf("vfFreezeClock", func(in *Interp, th *Thread, fn *ssa.Function, a []Value) (Value, bool) {
+		// every clock reading returns sec until vfUnfreezeClock
+		in.clockFrozen = in.asTerm(a[0])
+		return nil, true
+	})
+	vf("vfUnfreezeClock", func(in *Interp, th *Thread, fn *ssa.Function, a []Value) (Value, bool) {
+		in.clock = in.clockFrozen
+		in.clockFrozen = nil
+		return nil, true
+	})
 	vf("vfIsSymbolic", func(in *Interp, th *Thread, fn *ssa.Function, a []Value) (Value, bool) {
 		return in.ts.True, true
 	})
@@ -317,6 +334,9 @@ func (in *Interp) branchAssume(c *Term) bool {
 const unixToInternal = 62135596800
 
 func (in *Interp) now() *Term {
+	if in.clockFrozen != nil {
+		return in.clockFrozen
+	}
 	if in.clockForce != nil {
 		t := in.clockForce
 		in.clockForce = nil
